@@ -285,8 +285,207 @@ bool equal_modulo_unknown(const std::string& ref, const std::string& rec)
 
 }  // namespace
 
+/** measures a call in a pristine child: allocations and I/O callbacks it makes when nothing is faulted */
+static bool measure_call(const CallSpec& c, uint64_t& allocs, uint64_t& ios, int watchdog_s)
+{
+    int p[2];
+    if (pipe(p) != 0)
+        return false;
+    pid_t pid = fork();
+    if (pid == 0) {
+        close(p[0]);
+        signal(SIGALRM, SIG_DFL);
+        g_on_ceiling = [] { _exit(9); };
+        g_on_exit_in_call = nullptr;
+        Session s;
+        alarm((unsigned)watchdog_s);
+        CallResult r = run_call(s, c, 0);
+        uint64_t v[2] = {r.ctx.allocs, r.ctx.io_calls};
+        (void)!::write(p[1], v, sizeof v);
+        _exit(0);
+    }
+    close(p[1]);
+    uint64_t v[2] = {0, 0};
+    size_t got = 0;
+    while (got < sizeof v) {
+        ssize_t n = ::read(p[0], (char*)v + got, sizeof v - got);
+        if (n <= 0) {
+            if (n < 0 && errno == EINTR)
+                continue;
+            break;
+        }
+        got += (size_t)n;
+    }
+    close(p[0]);
+    int st = 0;
+    waitpid(pid, &st, 0);
+    allocs = v[0];
+    ios = v[1];
+    return got == sizeof v;
+}
+
+/** Family "sweep" (fault enumeration inside one sampled scenario): one victim call is executed once per fault point -
+ *  every allocation index (allocation failure) and every I/O callback index (EIO / EINTR / EOF) of that call, exhaustively
+ *  up to a cap - and after each faulted execution a fixed set of probe calls by other clients must still equal their
+ *  pristine-process records ("once faults stop, service is normal again", evaluated on the very next calls). */
+static void profile_history_sweep(RunCtx& ctx)
+{
+    Rng rng{ctx.run_seed};
+    // ---- plan ----
+    HOp victim = make_load(ctx, rng, 0);
+    if (rng.chance(0.5)) {
+        // inputs that keep the lexer in a non-initial state for long stretches
+        GenCfg cfg = draw_cfg(rng);
+        cfg.max_templates = 2;
+        Model m = gen_model(rng, cfg);
+        m.gdecls[0].text = long_comment(rng) + m.gdecls[0].text;
+        if (rng.chance(0.5)) {
+            XmlKnobs kn = draw_knobs(rng);
+            victim.call.bytes = render_xml(m, kn, rng);
+            victim.call.entry = rng.below(3);
+            victim.what = "generated-xml+long-comment";
+        } else {
+            victim.call.bytes = render_xta(m);
+            victim.call.entry = rng.chance(0.5) ? E_XTA_STR : E_XTA_FILE;
+            victim.what = "generated-xta+long-comment";
+        }
+    }
+    if (rng.chance(0.15)) {
+        victim = make_followup(ctx, rng, 0);
+        victim.call.backend = victim.call.entry == E_PART ? B_BUILDER : B_TIGA;
+    }
+    victim.call.alloc_fail_at = -1;
+    victim.call.ceiling = 0;
+    const int nprobes = rng.range(2, 4);
+    std::vector<std::vector<HOp>> probes(nprobes);
+    for (int i = 0; i < nprobes; ++i) {
+        probes[i].push_back(make_load(ctx, rng, i + 1));
+        probes[i].back().call.alloc_fail_at = -1;
+        if (rng.chance(0.6)) {
+            probes[i].push_back(make_followup(ctx, rng, i + 1));
+            probes[i].back().call.alloc_fail_at = -1;
+        }
+        for (auto& op : probes[i])
+            op.call.ceiling = default_ceiling(op.call.bytes.size());
+    }
+    ctx.step(0, "plan");
+    if (UTAP::tracker.position != 0) {
+        ctx.violation("HARNESS", "not-pristine", "not-pristine", "the run process parsed something before forking its references");
+        return;
+    }
+    // ---- references and measurement (pristine children) ----
+    std::vector<std::vector<std::string>> refs(nprobes);
+    for (int i = 0; i < nprobes; ++i) {
+        std::vector<const HOp*> ops;
+        for (auto& op : probes[i])
+            ops.push_back(&op);
+        refs[i] = reference_session(ops, ctx.watchdog_s);
+    }
+    uint64_t nalloc = 0, nio = 0;
+    if (!measure_call(victim.call, nalloc, nio, ctx.watchdog_s)) {
+        ctx.count("sweep-victim-not-measurable");
+        return;
+    }
+    ctx.count("sweep-victims");
+    ctx.count("sweep-victim-allocations", nalloc);
+    ctx.count("sweep-victim-io-callbacks", nio);
+    // ---- fault points ----
+    struct FP
+    {
+        int kind;  // 0 alloc, else IoFault
+        uint64_t at;
+    };
+    std::vector<FP> fps;
+    const uint64_t cap_alloc = ctx.thorough ? 6000 : 250, cap_io = ctx.thorough ? 600 : 60;
+    {
+        double stride = nalloc > cap_alloc ? (double)nalloc / cap_alloc : 1.0;
+        for (double k = 1; k <= (double)nalloc; k += stride)
+            fps.push_back(FP{0, (uint64_t)k});
+        if (nalloc > cap_alloc)
+            ctx.count("sweep-alloc-points-sampled-not-exhaustive");
+        else
+            ctx.count("sweep-alloc-points-exhaustive");
+        const bool stream = victim.call.entry == E_XML_FILE || victim.call.entry == E_XML_FD || victim.call.entry == E_XTA_FILE ||
+                            victim.call.entry == E_PROP_FILE;
+        if (stream) {
+            double st2 = nio > cap_io ? (double)nio / cap_io : 1.0;
+            for (double j = 1; j <= (double)nio; j += st2)
+                for (int kind : {IO_EIO, IO_EINTR, IO_EOF})
+                    fps.push_back(FP{kind, (uint64_t)j});
+        }
+    }
+    ctx.sample("history sweep: victim " + victim.call.str() + " (" + victim.what + "), " + std::to_string(nalloc) + " allocations, " +
+               std::to_string(nio) + " I/O callbacks, " + std::to_string(fps.size()) + " fault points, " + std::to_string(nprobes) + " probe sessions");
+    ctx.event("sweep " + std::to_string(fnv1a(victim.call.bytes)) + " " + std::to_string(fps.size()));
+    // ---- execution ----
+    int arena = AM_MALLOC;
+    if (!(ctx.simplify & SIMP_NOARENA) && rng.chance(0.3))
+        arena = rng.chance(0.5) ? AM_ARENA_UP : AM_ARENA_DOWN;
+    alloc_set_mode(arena);
+    ctx.c06_applicable = false;
+    int step = 1;
+    for (auto& fp : fps) {
+        const int st = step++;
+        if (!ctx.keep(st))
+            continue;
+        CallSpec v = victim.call;
+        if (fp.kind == 0)
+            v.alloc_fail_at = (int64_t)fp.at;
+        else {
+            v.sched.fault_at = (int)fp.at;
+            v.sched.fault_kind = fp.kind;
+        }
+        {
+            Session vs;
+            ctx.hint = "sweep-victim:" + victim.what;
+            CallResult r = ctx.call(vs, v, st);
+            if (ctx.violations)
+                return;
+            ctx.count(r.env_faulted() ? "sweep-fault-points-fired" : "sweep-fault-points-not-reached");
+            if (r.env_faulted() && r.threw)
+                ctx.count("sweep-faulted-calls-ending-in-exception");
+            ctx.event(std::string{"v"} + (r.threw ? r.exc_class : "ok"));
+            vs.drop();
+        }
+        // the probes: other clients, fault-free, right after the fault
+        const int pi = (int)(rng.below((uint32_t)nprobes));
+        Session ps;
+        for (size_t k = 0; k < probes[pi].size(); ++k) {
+            const HOp& op = probes[pi][k];
+            ctx.hint = "sweep-probe:" + op.what;
+            CallResult r = ctx.call(ps, op.call, st);
+            if (ctx.violations)
+                return;
+            if (k >= refs[pi].size() || refs[pi][k][0] == 'F' || r.env_faulted())
+                continue;
+            std::string rec = record_of(ps, op.call, r);
+            ctx.count("calls-compared");
+            ctx.count("sweep-probe-calls-compared");
+            const std::string ref = refs[pi][k].substr(1);
+            if (rec != ref) {
+                std::string d = first_diff(ref, rec);
+                std::string kind = first_word(d.substr(d.find('[') + 1));
+                std::ostringstream det;
+                det << "after " << (fp.kind == 0 ? "allocation failure" : io_fault_name(fp.kind)) << " at #" << fp.at << " of " << victim.call.str() << " ("
+                    << victim.what << "), the fault-free call " << op.call.str() << " (" << op.what
+                    << ") differs from the same call in a pristine process: " << d;
+                if (ctx.violation("C15", "history-dependent-result",
+                                  std::string{"after-fault|"} + (fp.kind == 0 ? "alloc" : io_fault_name(fp.kind)) + "|" + entry_name(victim.call.entry) + "|" +
+                                      entry_name(op.call.entry) + "|" + kind,
+                                  det.str()))
+                    return;
+            }
+        }
+        ps.drop();
+    }
+}
+
 void profile_history(RunCtx& ctx)
 {
+    if (ctx.family == "sweep") {
+        profile_history_sweep(ctx);
+        return;
+    }
     Rng rng{ctx.run_seed};
     // ---- plan (complete before the first library call) ----
     const int nclients = rng.range(2, 4);
